@@ -107,7 +107,7 @@ from .asttypes import (
     _type_params,
 )
 
-from .astutil import constant, bistr, copy_ast, merge_arglikes
+from .astutil import constant, bistr, repr_constant, copy_ast, merge_arglikes
 from .common import FTSTRING_END_TOKENS, PYGE13, NodeError, pyver
 from .fst_misc import fixup_one_index
 from .slice_stmtlike import get_slice_stmtlike
@@ -248,7 +248,7 @@ def _get_one_constant(self: fst.FST, idx: int | None, field: str, cut: bool, opt
     if fst.FST.get_option('promote', options) != 'all':
         return child
 
-    src = repr(child)
+    src = repr_constant(child)
 
     return fst.FST(Constant(value=child, lineno=1, col_offset=0, end_lineno=1, end_col_offset=len(src.encode())),
                    [src], None, from_=self)
@@ -264,7 +264,7 @@ def _get_one_constant_promote_true(
     if not fst.FST.get_option('promote', options):
         return child
 
-    src = repr(child)
+    src = repr_constant(child)
 
     return fst.FST(Constant(value=child, lineno=1, col_offset=0, end_lineno=1, end_col_offset=len(src.encode())),
                    [src], None, from_=self)
